@@ -238,6 +238,76 @@ func manyHolders(m mkLocker, n int, pb [2]int) *mc.Scenario {
 		}}
 }
 
+// multiKeyOrder: the global order that keeps multi-key calls deadlock-free, checked where it is made.
+// For 2,3,5,7,11,13 shards x modulo/xxhash routing, every subset of 1..6 keys out of 14 (ascending,
+// descending and rotated), each computed 6 times (the grouping goes through a Go map, whose iteration
+// order varies from call to call): the shards are visited in strictly ascending index order, every key is
+// handed to the shard it routes to, and every list element is handed out exactly once.
+func multiKeyOrder() *mc.Scenario {
+	return &mc.Scenario{Name: "TKeyLockerGrp/multi-key-visit-order", PB: [2]int{0, 0}, Horizon: 1 << 30, NoStateCache: true,
+		Main: func(w *mc.World) {
+			for _, p := range []uint64{2, 3, 5, 7, 11, 13} {
+				for _, xx := range []bool{false, true} {
+					var l keylock.TLocker[int]
+					if xx {
+						l = keylock.NewTXHashTKeyLockeGrp[int](remap.WithPrime(p))
+					} else {
+						l = keylock.NewTKeyLockeGrp[int](remap.WithPrime(p))
+					}
+					const nk = 14
+					for mask := 1; mask < 1<<nk; mask++ {
+						var ks []int
+						for k := 0; k < nk; k++ {
+							if mask&(1<<k) != 0 {
+								ks = append(ks, k+1)
+							}
+						}
+						if len(ks) > 6 {
+							continue
+						}
+						desc := make([]int, len(ks))
+						for i, k := range ks {
+							desc[len(ks)-1-i] = k
+						}
+						rot := append(append([]int{}, ks[len(ks)/2:]...), ks[:len(ks)/2]...)
+						for _, list := range [][]int{ks, desc, rot} {
+							for rep := 0; rep < 6; rep++ {
+								idx, per, ok := keylock.VerifTGroupOrder[int](l, list)
+								if !ok {
+									w.Failf("harness: not a generic group locker")
+									return
+								}
+								seen := map[int]int{}
+								for gi, sh := range idx {
+									if gi > 0 && idx[gi-1] >= sh {
+										w.Failf("multi-key call on keys %v (%d shards, xxhash=%v) visits the shards in order %v - not ascending: two multi-key calls sharing two of these shards can take them in opposite orders and deadlock", list, p, xx, idx)
+										return
+									}
+									for _, k := range per[gi] {
+										seen[k]++
+										if keylock.VerifTShard[int](l, k) != sh {
+											w.Failf("multi-key call on keys %v (%d shards, xxhash=%v) hands key %d to shard %d, single-key calls route it to shard %d", list, p, xx, k, sh, keylock.VerifTShard[int](l, k))
+											return
+										}
+									}
+								}
+								for _, k := range list {
+									seen[k]--
+								}
+								for k, n := range seen {
+									if n != 0 {
+										w.Failf("multi-key call on keys %v (%d shards, xxhash=%v): key %d is handed out %+d times too often (groups %v)", list, p, xx, k, n, per)
+										return
+									}
+								}
+							}
+						}
+					}
+				}
+			}
+		}}
+}
+
 var (
 	bufA = func() *[]int { b := make([]int, 8); return &b }()
 	bufB = func() *[]int { b := make([]int, 13); return &b }()
@@ -285,12 +355,13 @@ func scenarios() []*mc.Scenario {
 			}
 		}
 	}
+	scs = append(scs, multiKeyOrder())
 	return scs
 }
 
 func main() {
 	r := ev.Start("C02")
-	r.Rule("every interleaving (at each table-mutex and per-key RWMutex point incl. the pending-writer phase, up to the stated preemption bound) of 2-4 goroutines doing Lock/RLock/Locks/RLocks - hold - unlock on the real KeyLocker, KeyLockerGrp, TKeyLocker[int], TKeyLockerGrp[int] with modulo/xxhash sharding and 1..3 shards; multi-key lists duplicate-free and consistent with one global key order, keys chosen so that shard order differs from list order; oracles: per-key holder counters at every entry (multi-key callers count on every listed key), deadlock, entry residue at every scheduling decision where nobody is inside and at the end; distinct = (status, entry order) signatures")
+	r.Rule("every interleaving (at each table-mutex and per-key RWMutex point incl. the pending-writer phase, up to the stated preemption bound) of 2-4 goroutines doing Lock/RLock/Locks/RLocks - hold - unlock on the real KeyLocker, KeyLockerGrp, TKeyLocker[int], TKeyLockerGrp[int] with modulo/xxhash sharding and 1..3 shards; multi-key lists duplicate-free and consistent with one global key order, keys chosen so that shard order differs from list order; plus, for the generic group locker with 2..13 shards, the shard visiting order of every list of 1-6 out of 14 keys (three list orders, 6 repetitions): strictly ascending, routing as for single keys, each element once; oracles: per-key holder counters at every entry (multi-key callers count on every listed key), deadlock, entry residue at every scheduling decision where nobody is inside and at the end; distinct = (status, entry order) signatures")
 	r.Assume("vsync model of sync.Mutex and sync.RWMutex (writer preference, readers blocked behind a writer admitted together)", "scenario bodies are data-race free")
 	mc.Main(r, scenarios())
 }
